@@ -26,14 +26,13 @@ META = {
             'if both endpoints complete then their transcripts, keys, hellos and negotiated views are equal (TLS<=1.2 full, '
             'abbreviated; TLS 1.3 full, HelloRetryRequest, PSK) and equal the server\'s answer to the honest offer; the '
             'downgrade sentinel is written (full handshake; REFUTED for the resumed ServerHello) and checked, FALLBACK_SCSV '
-            'is enforced, the second ClientHello is bound to the first (partial: without pre_shared_key). Tied to /repo by a '
+            'is enforced, the second ClientHello is bound to the first outside the HRR-permitted extensions. Tied to /repo by a '
             'regenerated site table and by a byte-level man-in-the-middle between live endpoints on which the property '
             'itself and the model\'s decision functions are checked.',
     'note': 'Idealisation (theorems with suffix _ideal): transcript hash and Finished/binder PRF injective, Finished values under '
             'an honest key cannot be produced by the attacker (hypothesis `unforgeable`; false for anonymous key exchange against '
             'a full man-in-the-middle, which the protocol does not claim to resist). Trusted: Coq kernel + vm_compute; '
-            'translator/units_c04.py (ast walk); Model/C04_SitesExpected.v as the reading of which sites matter; the live proxy '
-            'harness; hrr_second_hello_bound is _partial (second hellos without pre_shared_key).',
+            'translator/units_c04.py (ast walk); Model/C04_SitesExpected.v as the reading of which sites matter; the live proxy harness.',
     'technique': 'Rocq/Coq proof over hand-written symbolic model + regenerated site table + live man-in-the-middle correspondence',
 }
 S11 = bytes.fromhex('444f574e47524400')
@@ -148,9 +147,15 @@ def judge(sc, base, r, ops):
         f = sh_facts(mh)
         if f is None or f['hrr']:
             continue
-        if rfc_client_must_abort(cmax, f['v'], f['tail']) and r['c'] == ('ok',):
-            out.append(('sentinel-not-checked', 'client (max %r) completed on a ServerHello for %r carrying a downgrade sentinel'
-                        % (cmax, f['v'])))
+        if rfc_client_must_abort(cmax, f['v'], f['tail']):
+            n_ch = len([m for m in r['wire']['c2s']['sent'] if m[:2] == '01'])
+            if r['c'] == ('ok',):
+                out.append(('sentinel-not-checked', 'client (max %r) completed on a ServerHello for %r carrying a downgrade sentinel'
+                            % (cmax, f['v'])))
+            elif r['wire']['c2s']['nsent'] > n_ch:
+                # must hold even if the lower version's Finished cannot be trusted: stop AT the ServerHello
+                out.append(('sentinel-not-checked', 'client (max %r) went on with the key exchange after a ServerHello for %r '
+                            'carrying a downgrade sentinel' % (cmax, f['v'])))
         break
     # SCSV: the first ClientHello DELIVERED to the server
     for mh in r['wire']['c2s']['dlv'][:1]:
@@ -461,24 +466,25 @@ def run(ctx):
                 continue
             expect_fail = n.startswith('scsv-fallback')
             if not expect_fail and not b['both']:
-                found = True
-                ctx.violation('honest-handshake-fails:%s' % n,
-                              'the untampered %s handshake does not complete: %r %r' % (n, b['c'], b['s']),
-                              {'scenario': n, 'c': b['c'], 's': b['s'], 'how': 'harness/c04_proxy.run_case(scenarios()[name], [])'})
+                if ctx.violation('honest-handshake-fails:%s' % n,
+                                 'the untampered %s handshake does not complete: %r %r' % (n, b['c'], b['s']),
+                                 {'scenario': n, 'ops': [], 'c': b['c'], 's': b['s'],
+                                  'how': 'harness/c04_proxy.run_case(scenarios()[name], [])'}):
+                    found = True
                 continue
             if expect_fail:
                 b.setdefault('diff', [])
                 b.setdefault('vc', {'version': None, 'suite': None})
                 if b['s'] != ('LocalAlert', 86):
-                    found = True
-                    ctx.violation('scsv-ignored', 'server did not answer inappropriate_fallback to an honest fallback hello with SCSV: %r' % (b['s'],),
-                                  {'scenario': n, 's': b['s']})
+                    if ctx.violation('scsv-ignored', 'server did not answer inappropriate_fallback to an honest fallback hello '
+                                     'with SCSV: %r' % (b['s'],), {'scenario': n, 'ops': [], 's': b['s']}):
+                        found = True
             extra = set(b['diff']) - ALLOWED_BASELINE_DIFF
             if extra:
-                found = True
-                ctx.violation('views-differ:honest:' + ','.join(sorted(extra)),
-                              'honest %s handshake: views differ in %s' % (n, sorted(extra)),
-                              {'scenario': n, 'vc': b.get('vc'), 'vs': b.get('vs')})
+                if ctx.violation('views-differ:honest:' + ','.join(sorted(extra)),
+                                 'honest %s handshake: views differ in %s' % (n, sorted(extra)),
+                                 {'scenario': n, 'ops': [], 'vc': b.get('vc'), 'vs': b.get('vs')}):
+                    found = True
             jobs += gen_jobs(ctx, n, b, quick)
         ctx.log('%d scenarios, %d attacked handshakes' % (len(names), len(jobs)))
         results = pool.map(work, jobs, chunksize=16)
@@ -501,10 +507,12 @@ def run(ctx):
                   sample={'scenario': r['name'], 'ops': r['ops'], 'c': r['c'], 's': r['s']} if r['both'] and r['applied'] else None)
         n_both += bool(r['both'])
         for k, what in r['viol']:
-            found = True
-            ctx.violation(k, '%s [%s %s]' % (what, r['name'], kind),
-                          {'scenario': r['name'], 'ops': r['ops'], 'c': r['c'], 's': r['s'], 'vc': r.get('vc'), 'vs': r.get('vs'),
-                           'how': './check C04 --replay <this file>  (harness/c04_proxy.run_case(scenarios()[scenario], ops))'})
+            # a known finding does not count as "found": it must not mask a broken proof / broken tie
+            if ctx.violation(k, '%s [%s %s]' % (what, r['name'], kind),
+                             {'scenario': r['name'], 'ops': r['ops'], 'c': r['c'], 's': r['s'], 'vc': r.get('vc'),
+                              'vs': r.get('vs'),
+                              'how': './check C04 --replay <this file>  (harness/c04_proxy.run_case(scenarios()[scenario], ops))'}):
+                found = True
         if 'wire' in r and opk == 'rw':
             mc = model_cases(r['name'], _scenarios()[r['name']], r)
             for k in lits:
